@@ -108,7 +108,7 @@ def correspondence(ctx):
     return deccorr.suite_histories(ctx) + [suite_units(ctx)]
 
 
-def monitor(ctx):
+def monitor(ctx, only=None):
     """the property on the real code: decoding with preferences = decoding without, except value/unit of fields with a recognised preference"""
     import math
     harness.load_repo()
@@ -131,6 +131,8 @@ def monitor(ctx):
             jobs += [(sfx, p, maps[0]), (sfx, p, maps[1]), (sfx, p, rnd.choice(maps[2:]))]       # every conversion of every convertible field
         else:
             jobs.append((sfx, p, rnd.choice(maps)))
+    if only:
+        jobs = [(only[0], db.defs[only[0]], only[2])]
     for sfx, p, pr in jobs:
         d1 = NMEA2000Decoder(preferred_units={PQ[k]: v for k, v in pr.items()})
         d0 = NMEA2000Decoder()
@@ -140,7 +142,7 @@ def monitor(ctx):
             if f.get("PhysicalQuantity") in SI_UNIT:
                 nbits = f["BitLength"]
                 extra += [(base & ~(((1 << nbits) - 1) << o)) | ((v & ((1 << nbits) - 1)) << o) for v in rounding_boundary_raws(f, rnd, 8)]
-        for x in pgncorr.payloads_for(p, rnd, True, 3)[:80] + extra:
+        for x in ([only[1]] * 3 if only else pgncorr.payloads_for(p, rnd, True, 3)[:80] + extra):
             nb = max(1, (p.get("Length") or (x.bit_length() + 7) // 8))
             data = (x & ((1 << (8 * nb)) - 1)).to_bytes(nb, "little")[::-1]
             try:
@@ -151,7 +153,7 @@ def monitor(ctx):
             try:
                 m1 = d1._decode(p["PGN"], 3, 1, 255, None, data, b"", True)
             except Exception as e:
-                return {"what": f"{sfx}: decoding with preferences {pr} raises {type(e).__name__} where decoding without succeeds", "function": sfx, "payload": str(x)}, n
+                return {"what": f"{sfx}: decoding with preferences {pr} raises {type(e).__name__} where decoding without succeeds", "function": sfx, "payload": str(x), "prefs": pr}, n
             if m0 is None:
                 continue
             if m1 is not None and p.get("Type") == "Fast" and n % 3 == 0 and len(data) <= 223:
@@ -168,9 +170,9 @@ def monitor(ctx):
                     bad = next(((a.id, a.value, a.unit_of_measurement, b.value, b.unit_of_measurement) for a, b in zip(m1.fields, getattr(mf, "fields", []) or [])
                                 if (repr(a.value), a.unit_of_measurement) != (repr(b.value), b.unit_of_measurement)), None)
                     return {"what": f"{sfx} with preferences {pr}: the message reassembled from frames differs from the pre-assembled one "
-                                    f"({'no message' if mf is None or isinstance(mf, str) else bad}: field, value/unit pre-assembled, value/unit from frames)", "function": sfx, "payload": str(x)}, n
+                                    f"({'no message' if mf is None or isinstance(mf, str) else bad}: field, value/unit pre-assembled, value/unit from frames)", "function": sfx, "payload": str(x), "prefs": pr}, n
             if m1 is None or len(m1.fields) != len(m0.fields) or (m1.PGN, m1.id, m1.source, m1.destination, m1.priority, m1.hash) != (m0.PGN, m0.id, m0.source, m0.destination, m0.priority, m0.hash):
-                return {"what": f"{sfx}: message attributes differ with preferences {pr}", "function": sfx, "payload": str(x)}, n
+                return {"what": f"{sfx}: message attributes differ with preferences {pr}", "function": sfx, "payload": str(x), "prefs": pr}, n
             for f0, f1 in zip(m0.fields, m1.fields):
                 q = f0.physical_quantities.name if f0.physical_quantities else None
                 c = conv.get((q, pr.get(q, "").lower())) if q else None
@@ -179,16 +181,16 @@ def monitor(ctx):
                 same_rest = (f0.id, f0.name, f0.description, f0.raw_value if not (isinstance(f0.raw_value, float) and math.isnan(f0.raw_value)) else None, f0.type, f0.part_of_primary_key) == \
                             (f1.id, f1.name, f1.description, f1.raw_value if not (isinstance(f1.raw_value, float) and math.isnan(f1.raw_value)) else None, f1.type, f1.part_of_primary_key)
                 if not same_rest:
-                    return {"what": f"{sfx} field {f0.id}: raw value or metadata changed by preferences {pr}", "function": sfx, "payload": str(x)}, n
+                    return {"what": f"{sfx} field {f0.id}: raw value or metadata changed by preferences {pr}", "function": sfx, "payload": str(x), "prefs": pr}, n
                 if c is None:
                     if (f0.value, f0.unit_of_measurement) != (f1.value, f1.unit_of_measurement) and not (f0.value != f0.value):
-                        return {"what": f"{sfx} field {f0.id} ({q}): changed although no recognised preference applies ({pr})", "function": sfx, "payload": str(x)}, n
+                        return {"what": f"{sfx} field {f0.id} ({q}): changed although no recognised preference applies ({pr})", "function": sfx, "payload": str(x), "prefs": pr}, n
                 else:
                     lab, fn, tol = c
                     if f1.unit_of_measurement != lab or (f0.value is None) != (f1.value is None):
-                        return {"what": f"{sfx} field {f0.id}: unit label {f1.unit_of_measurement!r} / absent value handling wrong under {pr}", "function": sfx, "payload": str(x)}, n
+                        return {"what": f"{sfx} field {f0.id}: unit label {f1.unit_of_measurement!r} / absent value handling wrong under {pr}", "function": sfx, "payload": str(x), "prefs": pr}, n
                     if f0.value is not None and abs(f1.value - fn(f0.value)) > tol + abs(fn(f0.value)) * 1e-12 + 1e-12:
-                        return {"what": f"{sfx} field {f0.id}: {f0.value} {f0.unit_of_measurement} converted to {f1.value} {lab}, expected {fn(f0.value)} (tolerance {tol})", "function": sfx, "payload": str(x)}, n
+                        return {"what": f"{sfx} field {f0.id}: {f0.value} {f0.unit_of_measurement} converted to {f1.value} {lab}, expected {fn(f0.value)} (tolerance {tol})", "function": sfx, "payload": str(x), "prefs": pr}, n
     return None, n
 
 
@@ -202,4 +204,7 @@ def search(ctx, broken, corr_broken):
 
 
 def replay(rp):
-    return False, str(rp.get("what") or rp.get("broken_theorems") or rp.get("broken_correspondence"))[:500]
+    if rp.get("kind") != "units" or "prefs" not in rp:
+        return False, "not an input replay: " + str(rp.get("what") or rp.get("broken_theorems") or rp.get("broken_correspondence"))[:500]
+    hit, _ = monitor({"seed": rp.get("seed", 0), "tier": "quick", "repo": common.REPO}, only=(rp["function"], int(rp["payload"]), rp["prefs"]))
+    return hit is None, (hit["what"] if hit else "holds now")
